@@ -124,6 +124,16 @@ func (c *Ctx) NoGlobalWrites(ob *core.Obligation, reachKey string, roots []*ssa.
 							bad, pos = "mutates in place the big number held by package-level variable "+g.Name(), x.Pos()
 						}
 					}
+					// the address of a package-level variable (or of a part of it) handed to a call:
+					// the callee can write it
+					for _, a := range call.Args {
+						if _, isPtr := a.Type().Underlying().(*types.Pointer); !isPtr {
+							continue
+						}
+						if g := rootGlobal(a); isModuleGlobal(g) && !isLoadedValue(a) {
+							bad, pos = "hands out the address of package-level variable "+g.Name()+" (the callee can write it)", x.Pos()
+						}
+					}
 					if obj := core.CalleeObj(call); obj != nil && obj.Pkg() != nil && (obj.Pkg().Path() == "sync" || obj.Pkg().Path() == "sync/atomic" || obj.Pkg().Path() == "unsafe") {
 						bad, pos = "uses "+obj.Pkg().Path()+"."+obj.Name(), x.Pos()
 					}
@@ -137,6 +147,28 @@ func (c *Ctx) NoGlobalWrites(ob *core.Obligation, reachKey string, roots []*ssa.
 			ob.Pass(key, c.P.Pos(fn.Pos()), "no write to package-level state, no goroutine/channel/sync")
 		}
 	}
+}
+
+// isLoadedValue: v is a value loaded from memory (a pointer stored in the variable), not the
+// address of the variable itself.
+func isLoadedValue(v ssa.Value) bool {
+	for i := 0; i < 8; i++ {
+		switch x := v.(type) {
+		case *ssa.UnOp:
+			return x.Op == token.MUL
+		case *ssa.FieldAddr:
+			v = x.X
+		case *ssa.IndexAddr:
+			v = x.X
+		case *ssa.ChangeType:
+			v = x.X
+		case *ssa.Convert:
+			v = x.X
+		default:
+			return false
+		}
+	}
+	return false
 }
 
 var bigReadersOnly = map[string]bool{"Cmp": true, "CmpAbs": true, "Sign": true, "String": true, "Text": true, "IsInt": true, "IsInt64": true,
